@@ -21,8 +21,9 @@ MANIFEST = {
         "text": "TLC exhaustively checks, for 1-3 allocators, 1-2 concurrent sessions per allocator, block sizes 1-3 "
                 "(thorough 5), up to 8 NextSeq calls and 15 fetch outcome classes, that the allocation algorithm with the "
                 "intended reply handling never issues a value twice, issues increasing values per allocator and fails on "
-                "every bad fetch; the same specification with the reply handling as written in mysql.go yields "
-                "counterexamples that are replayed.  All schedules TLC enumerates up to a request bound plus seeded "
+                "every bad fetch (the reply handling of the code since fix d955582); a deliberately weaker algorithm "
+                "(mutex not held across the fetch) yields counterexamples that are imposed as probe schedules, which the "
+                "real allocator must refuse.  All schedules TLC enumerates up to a request bound plus seeded "
                 "simulated longer ones are imposed on real MySQLSequence objects sharing one fake sequence row (fetches "
                 "parked inside ConnPool.Get and served in the schedule's order); recorded goroutine runs are validated "
                 "by TLC against the property-level trace specification.",
@@ -55,6 +56,7 @@ CONSTANTS
   MaxReq = %(req)d
   MaxLimit = %(limit)d
   Strict = %(strict)s
+  HoldLock = %(hold)s
   Outcomes = %(outcomes)s
 %(extra)s
 INVARIANTS %(inv)s
@@ -68,9 +70,10 @@ NAN_TEXTS = ["abc", "", "null", "1e3", "12abc", " 7", "0x1F", "NaN", "9223372036
 
 
 def cfg(spec="Spec", allocs=2, k=1, inc=2, start=10, req=4, limit=0, strict=True, outcomes=ALL_OUTCOMES,
-        inv="TypeOK Distinct Increasing BadFetchFails BlocksDisjoint", extra="", post=""):
+        inv="TypeOK Distinct Increasing BadFetchFails BlocksDisjoint", extra="", post="", hold=True):
     return CFG % dict(spec=spec, allocs=K.tla_set(["a%d" % (i + 1) for i in range(allocs)]), k=k, inc=inc, start=start,
-                      req=req, limit=limit, strict="TRUE" if strict else "FALSE", outcomes=K.tla_set(outcomes),
+                      req=req, limit=limit, strict="TRUE" if strict else "FALSE", hold="TRUE" if hold else "FALSE",
+                      outcomes=K.tla_set(outcomes),
                       inv=inv, extra=extra, post=post)
 
 
@@ -238,8 +241,7 @@ def run(ctx):
     import os
     stages = set((os.environ.get("VERIF_STAGES") or "mc,asis,bfs,sim,trace,selftest").split(","))  # development aid
     # 1. exhaustive model check of the design with the intended reply handling (Strict)
-    mcs = [dict(allocs=2, k=2, inc=2, req=4), dict(allocs=3, k=1, inc=1, req=3), dict(allocs=1, k=2, inc=3, req=8),
-           dict(allocs=2, k=1, inc=3, req=5, limit=17)]
+    mcs = [dict(allocs=2, k=2, inc=2, req=4), dict(allocs=3, k=1, inc=1, req=3), dict(allocs=1, k=2, inc=3, req=8, limit=19)]
     if thorough:
         mcs = [dict(allocs=2, k=2, inc=2, req=6), dict(allocs=3, k=1, inc=1, req=5), dict(allocs=3, k=1, inc=2, req=6),
                dict(allocs=1, k=2, inc=3, req=8), dict(allocs=2, k=1, inc=3, req=8), dict(allocs=2, k=1, inc=5, req=8),
@@ -252,20 +254,20 @@ def run(ctx):
         if r.zero_actions:
             ctx.notes.append("vacuous actions in %s: %s" % (m, r.zero_actions))
 
-    # 2. the same design with the reply handling as written (ParseInt errors dropped, no sign check): candidates
-    cands = {}
-    for inv in (("BadFetchFails", "Distinct", "Increasing") if thorough else ("BadFetchFails Distinct Increasing",)) if "asis" in stages else ():
-        r = ctx.tlc("Sequence", "seq_asis.cfg", extra_files={"seq_asis.cfg": cfg(allocs=2, k=1, inc=2, req=4, strict=False, inv=inv)},
-                    allow_violation=True, timeout=600, label="as-written reply handling, %s" % inv)
-        cands[inv] = r.violated
-    ctx.cov["candidates_from_as_written_model"] = cands
-    ctx.log("as-written model:", cands)
+    # 2. the weaker algorithm (mutex not held across the fetch) violates the property: its counterexamples are the probes
+    weak = {}
+    for inv in (("Distinct", "Increasing") if thorough else ("Distinct Increasing",)) if "asis" in stages else ():
+        r = ctx.tlc("Sequence", "seq_weak.cfg", extra_files={"seq_weak.cfg": cfg(allocs=1, k=2, inc=2, req=4, hold=False, outcomes=["ok"], inv=inv)},
+                    allow_violation=True, timeout=600, label="mutex not held across the fetch, %s" % inv)
+        weak[inv] = r.violated
+    ctx.cov["weaker_algorithm_violates"] = weak
+    ctx.log("weaker algorithm (HoldLock = FALSE):", weak)
 
     # 3. G: schedules
     nontriv = set()
     plans = [dict(allocs=2, k=1, inc=2, req=3, outcomes=["ok", "err_applied", "missing", "nan_cur", "zero_inc", "neg_inc"]),
              dict(allocs=2, k=2, inc=1, req=3, outcomes=["ok", "nan_inc"])]
-    sims = [dict(allocs=3, k=2, inc=2, req=8, outcomes=HANDLED, num=60), dict(allocs=2, k=2, inc=3, req=8, outcomes=ALL_OUTCOMES, num=60, limit=40)]
+    sims = [dict(allocs=3, k=2, inc=2, req=8, outcomes=ALL_OUTCOMES, num=80, limit=60)]
     if thorough:
         plans = [dict(allocs=2, k=1, inc=2, req=3, outcomes=[o for o in ALL_OUTCOMES if o not in ("err_get", "err_usedb", "null")]),
                  dict(allocs=2, k=1, inc=2, req=4, outcomes=["ok", "missing", "zero_inc"]),
@@ -327,8 +329,33 @@ def run(ctx):
                 nontriv.add(json.dumps(c["events"], sort_keys=True))
         ctx.sample(cases[0])
         submit(cases, "sim %s" % {k: v for k, v in s.items() if k != "outcomes"})
+    # probe schedules: behaviours of the weaker algorithm that end in a property violation.  The implementation must
+    # refuse them (the second session of an allocator waits for the mutex); where it lets them happen the property
+    # is judged on the values it returns.
+    probes = []
+    for pp in ([dict(allocs=2, k=2, inc=rng.choice([1, 2]), req=3)] if not thorough else
+               [dict(allocs=1, k=2, inc=2, req=3), dict(allocs=1, k=2, inc=1, req=4), dict(allocs=2, k=2, inc=1, req=3), dict(allocs=2, k=2, inc=3, req=4)]):
+        r = ctx.tlc("Sequence_gen", "seq_probe.cfg", workers=1, timeout=600,
+                    extra_files={"seq_probe.cfg": cfg(spec="GenSpec", hold=False, outcomes=["ok"], inv="Emit", extra="  GenReq = %d" % pp["req"], **pp)},
+                    label="probe schedules %s" % pp)
+        cs = concretise(ctx, r.cases, rng)
+        for c in cs:
+            c["probe"] = True
+        if not cs:
+            raise vlib.Inconclusive("no probe schedules for %s" % pp)
+        probes += cs if thorough else rng.sample(cs, min(len(cs), 10))
+    ctx.sample(probes[0])
+    summ = None
+    if thorough:
+        summ = replay(ctx, probes, "probe schedules")
+    else:
+        pending.extend(probes)
     if pending:
-        replay(ctx, pending, "all generated schedules")
+        summ = replay(ctx, pending, "all generated schedules")
+    ctx.cov["probe_schedules"] = {"replayed": summ.get("probes", 0), "refused_by_the_implementation": summ.get("probes_refused", 0),
+                                  "imposed": summ.get("probes_imposed", 0)}
+    if summ.get("probes", 0) != len(probes):
+        raise vlib.Inconclusive("harness replayed %s of %d probe schedules" % (summ.get("probes"), len(probes)))
     ctx.cov["distinct_nontrivial"] = len(nontriv)
     ctx.cov["rule"] = ("schedules = event sequences start/begin/fetch(outcome)/ret over allocators and sessions enumerated by TLC "
                        "(all with a bounded number of calls, plus seeded simulation); non-trivial = two allocators have fetches "
